@@ -144,6 +144,10 @@ func genDerive(r *KRng, client string) *WDerive {
 	if r.P(0.1) {
 		d.GreaseExact = true
 	}
+	if r.P(0.2) {
+		// the limit the in-tree server fills when it is 6 or less (it issues min(limit, 6) connection IDs)
+		d.CIDLimit = r.Pick(2, 3, 4, 5, 6, 7, 8)
+	}
 	if r.P(0.06) {
 		// an explicit initial_source_connection_id: the wire must carry it as written (and the server then refuses it)
 		d.ISCID = []string{"deadbeef01", "0102030405060708", "aa"}[r.N(3)]
